@@ -9,6 +9,7 @@ import (
 	"testing"
 
 	"github.com/gotid/god/internal/verifdrv"
+	"github.com/gotid/god/lib/conf"
 	"github.com/gotid/god/lib/hash"
 	"github.com/gotid/god/lib/store/redis"
 	"github.com/gotid/god/lib/syncx"
@@ -22,6 +23,8 @@ func TestVerifDriverC13(t *testing.T) {
 		var c struct {
 			Weights []int    `json:"weights"`
 			Keys    []string `json:"keys"`
+			Loaded  string   `json:"loaded"` // "", "json", "yaml": the configuration goes through the conf loader
+			Omit    []bool   `json:"omit"`   // loaded: node i carries no Weight entry (weights[i] is the documented default)
 		}
 		if err := json.Unmarshal(raw, &c); err != nil {
 			return map[string]any{"error": err.Error()}
@@ -34,6 +37,30 @@ func TestVerifDriverC13(t *testing.T) {
 			conf[i] = NodeConfig{Config: redis.Config{Host: addr, Type: redis.NodeType}, Weight: w}
 			index[addr] = i
 			ref.AddWithWeight(addr, w)
+		}
+		var loadedWeights []int
+		if c.Loaded != "" {
+			var holder struct {
+				Cache ClusterConfig
+			}
+			hosts := make([]string, len(conf))
+			for i := range conf {
+				hosts[i] = conf[i].Host
+			}
+			if err := verifLoadClusterConf(c.Loaded, hosts, c.Weights, c.Omit, &holder); err != nil {
+				return map[string]any{"error": err.Error()}
+			}
+			conf = holder.Cache
+			for _, nc := range conf {
+				loadedWeights = append(loadedWeights, nc.Weight)
+			}
+			if TotalWeights(conf) <= 0 { // New would log.Fatal
+				got := make([]int, len(c.Keys))
+				for i := range got {
+					got[i] = -1
+				}
+				return map[string]any{"got": got, "ref": got, "cluster": false, "loaded_weights": loadedWeights, "fatal": true}
+			}
 		}
 		built := New(conf, syncx.NewSingleFlight(), NewStat("verif"), errors.New("verif not found"))
 		got := make([]int, len(c.Keys))
@@ -56,6 +83,35 @@ func TestVerifDriverC13(t *testing.T) {
 				got[i] = index[v.(node).rds.Addr]
 			}
 		}
-		return map[string]any{"got": got, "ref": want, "cluster": isCluster}
+		return map[string]any{"got": got, "ref": want, "cluster": isCluster, "loaded_weights": loadedWeights}
 	})
+}
+
+// verifLoadClusterConf renders {Cache: [{Host, Type[, Weight]}...]} as JSON or YAML (Weight left out where
+// omit[i]) and loads it into v through the conf loader.
+func verifLoadClusterConf(format string, hosts []string, weights []int, omit []bool, v any) error {
+	var text string
+	if format == "yaml" {
+		text = "Cache:\n"
+		for i, h := range hosts {
+			text += fmt.Sprintf("  - Host: %q\n    Type: node\n", h)
+			if i >= len(omit) || !omit[i] {
+				text += fmt.Sprintf("    Weight: %d\n", weights[i])
+			}
+		}
+		return conf.LoadFromYamlBytes([]byte(text), v)
+	}
+	text = `{"Cache": [`
+	for i, h := range hosts {
+		if i > 0 {
+			text += ", "
+		}
+		text += fmt.Sprintf(`{"Host": %q, "Type": "node"`, h)
+		if i >= len(omit) || !omit[i] {
+			text += fmt.Sprintf(`, "Weight": %d`, weights[i])
+		}
+		text += "}"
+	}
+	text += "]}"
+	return conf.LoadFromJsonBytes([]byte(text), v)
 }
